@@ -380,6 +380,10 @@ func (tr *Addition) Add(write func(w *Writer) error) error {
 	if wr.maxUpdateIndex < wr.minUpdateIndex {
 		return fmt.Errorf("reftable: table limits [%d, %d] are inverted", wr.minUpdateIndex, wr.maxUpdateIndex)
 	}
+	if wr.maxUpdateIndex == math.MaxUint64 {
+		// The next table would start at update index 0.
+		return fmt.Errorf("reftable: table limits [%d, %d] leave no update index for the next table", wr.minUpdateIndex, wr.maxUpdateIndex)
+	}
 
 	if err := tr.checkAddition(tab.Name()); err != nil {
 		return err
